@@ -288,3 +288,25 @@ impl LuaIndex for LuaMemberIndex {
         self.owner_members.clear();
     }
 }
+
+/// Entry counts of every map of this index (verification hook, add-only, off by default).
+#[cfg(feature = "verif")]
+impl LuaMemberIndex {
+    pub fn verif_sizes(&self) -> Vec<(String, usize)> {
+        let p = "member";
+        let mut v: Vec<(String, usize)> = Vec::new();
+        let mut put = |name: &str, n: usize| v.push((format!("{p}.{name}"), n));
+        put("members", self.members.len());
+        put("in_filed", self.in_filed.len());
+        put("in_filed.items", self.in_filed.values().map(|s| s.len()).sum());
+        put("owner_members", self.owner_members.len());
+        put("owner_members.items", self.owner_members.values().map(|s| s.get_member_len()).sum());
+        put("owner_members.ids", self.owner_members.values().flat_map(|s| s.get_member_items()).map(|i| match i {
+            LuaMemberIndexItem::One(_) => 1,
+            LuaMemberIndexItem::Many(ids) => ids.len(),
+        }).sum());
+        put("member_current_owner", self.member_current_owner.len());
+
+        v
+    }
+}
